@@ -297,7 +297,12 @@ func c06(r *ev.Run, pairMode bool) {
 			} {
 				in := goodIn
 				m(&in)
-				for _, code := range []string{"", zero, plaus} {
+				// the code of the message a derivation WITHOUT the admission check would assemble
+				// (fields padded / truncated to their widths): must be refused like any other string
+				naive := in.ref()
+				naive.Counter, naive.Timestamp = fit(in.Counter, 8), fit(in.Timestamp, 8)
+				naive.Challenge, naive.Session = fit(in.Challenge, 128), fit(in.Session, 128)
+				for _, code := range []string{"", zero, plaus, ref.OCRA(ocraKeys[1], good.ref(), naive)} {
 					fcs = append(fcs, fc{"inadmissible-input", c06Case{"config", good, sec, in, code}})
 				}
 			}
@@ -325,4 +330,11 @@ func c06(r *ev.Run, pairMode bool) {
 		r.Rule("for each suite/input: g = GenerateOCRA; every submitted string x must validate iff x == g; every failure cause must give (false, error) without panic; distinct = distinct (suite, string, outcome) tuples")
 		r.Assume("the oracle is the library's own generator (whose correctness is C05's concern)")
 	}
+}
+
+// fit pads with zeros or truncates to exactly n bytes.
+func fit(b []byte, n int) []byte {
+	out := make([]byte, n)
+	copy(out, b)
+	return out
 }
